@@ -957,8 +957,8 @@ func genRawSlice(t *rapid.T, lo, hi int) []int {
 	return out
 }
 
-var listOpNames = []string{"add", "insert", "replace", "delete", "deletemulti", "pop", "clear", "reverse", "sort", "sublist", "concat", "getters", "contains", "newlist", "newlistof", "newlistfrom"}
-var listOpWeights = []int{22, 10, 7, 6, 3, 5, 1, 4, 5, 9, 9, 5, 6, 4, 2, 4}
+var listOpNames = []string{"addmany", "add", "insert", "replace", "delete", "deletemulti", "pop", "clear", "reverse", "sort", "sublist", "concat", "getters", "contains", "newlist", "newlistof", "newlistfrom"}
+var listOpWeights = []int{6, 22, 10, 7, 6, 3, 5, 1, 4, 5, 9, 9, 5, 6, 4, 2, 4}
 
 var objectOpNames = []string{"set", "unset", "oclear", "merge", "pluck", "ogetters", "ocontains", "newobject", "newobjectfrom"}
 var objectOpWeights = []int{24, 9, 1, 10, 9, 8, 8, 6, 5}
@@ -967,6 +967,9 @@ func genListOp(t *rapid.T) Op {
 	name := listOpNames[pick(t, "lop", listOpWeights...)]
 	op := Op{Op: name, T: drawInt(t, 0, 63, "t"), U: drawInt(t, 0, 63, "u"), A: genRaw(t), B: genRaw(t)}
 	switch name {
+	case "addmany":
+		op.Op = "add"
+		op.Vals = genVals(t, 5, 12, 1)
 	case "add", "newlist":
 		op.Vals = genVals(t, 0, 4, 3)
 	case "insert", "replace", "contains", "newlistof":
@@ -1031,7 +1034,16 @@ func genProgram(t *rapid.T, listShare int) *ProgramCase {
 		}
 		return genObjectOp(t)
 	})
-	ops := rapid.SliceOfN(opGen, 1, maxOps).Draw(t, "ops")
+	// rapid's slice lengths are biased towards very short slices; draw a length class first so
+	// that long programs (lists crossing several capacity boundaries) are common
+	minLen := 1
+	switch pick(t, "lenclass", 30, 40, 30) {
+	case 1:
+		minLen = drawInt(t, 8, 25, "minlen")
+	case 2:
+		minLen = drawInt(t, 26, maxOps, "minlen")
+	}
+	ops := rapid.SliceOfN(opGen, minLen, maxOps).Draw(t, "ops")
 	return &ProgramCase{Ops: ops}
 }
 
